@@ -131,20 +131,53 @@ def run_conf_model(tier):
     return states, trans, out
 
 
+def apalache_attempt(ntasks, timeout):
+    """Optional unbounded-length argument (thorough tier): IndInv of spec/TaskManagerInd.tla is an inductive invariant of the
+    protocol for `ntasks` tasks, any number of submits / panics, batch and eager (Apalache, --length=1).  Never decides the verdict:
+    unavailable / timeout is recorded; a counterexample to induction on the unchanged spec is a model problem (inconclusive)."""
+    import shutil
+    import subprocess
+    if not shutil.which("apalache-mc"):
+        return {"status": "apalache-mc not available"}
+    d = vlib.mkscratch("verif-apa-")
+    shutil.copy(os.path.join(vlib.SPEC, "TaskManager.tla"), d)
+    t = open(os.path.join(vlib.SPEC, "TaskManagerInd.tla")).read()
+    t = t.replace('"t1", "t2", "t3", "t4", "t5", "t6", "t7", "t8"', ", ".join('"t%d"' % i for i in range(1, ntasks + 1)))
+    t = t.replace("MaxSubmits = 8 /\\ MaxPerSubmit = 8 /\\ MaxPanics = 8", "MaxSubmits = %d /\\ MaxPerSubmit = %d /\\ MaxPanics = %d" % ((ntasks,) * 3))
+    t = t.replace("Gen(8)", "Gen(%d)" % ntasks).replace("0..8", "0..%d" % ntasks)
+    with open(os.path.join(d, "TaskManagerInd.tla"), "w") as fh:
+        fh.write(t)
+    res = {"tasks": ntasks}
+    t0 = time.time()
+    for name, args in (("base", ["--init=Init", "--inv=IndInv", "--length=0"]), ("implies_safety", ["--init=IndInit", "--inv=Safety2", "--length=0"]),
+                       ("step", ["--init=IndInit", "--inv=IndInv", "--length=1"])):
+        try:
+            p = subprocess.run(["apalache-mc", "check", "--cinit=CInit", "--out-dir=" + os.path.join(d, "out")] + args + ["TaskManagerInd.tla"],
+                               cwd=d, stdout=subprocess.PIPE, stderr=subprocess.STDOUT, timeout=timeout)
+            out = p.stdout.decode("utf-8", "replace")
+            m = re.search(r"The outcome is: (\w+)", out)
+            res[name] = m.group(1) if m else "failed(exit %d)" % p.returncode
+        except subprocess.TimeoutExpired:
+            res[name] = "timeout"
+    res["wall_s"] = round(time.time() - t0, 1)
+    res["status"] = "inductive" if all(res.get(k) == "NoError" for k in ("base", "implies_safety", "step")) else "not established"
+    return res
+
+
 # ------------------------------------------------------------------------------------------------ case generation
 
-def gen_cfg(mode, n, max_edges, fail_kinds, dangling):
-    return ('CONSTANTS\n  Mode = "%s"\n  N = %d\n  MaxEdges = %d\n  FailKinds = {%s}\n  AllowDangling = %s\n'
+def gen_cfg(mode, n, max_edges, fail_kinds, dangling, max_br=0):
+    return ('CONSTANTS\n  Mode = "%s"\n  N = %d\n  MaxEdges = %d\n  MaxBr = %d\n  FailKinds = {%s}\n  AllowDangling = %s\n'
             'SPECIFICATION Spec\nINVARIANT Emit\nCHECK_DEADLOCK FALSE\n' % (
-                mode, n, max_edges, ", ".join('"%s"' % k for k in fail_kinds), "TRUE" if dangling else "FALSE"))
+                mode, n, max_edges, max_br, ", ".join('"%s"' % k for k in fail_kinds), "TRUE" if dangling else "FALSE"))
 
 
 def gen_graphs(families):
-    """families: list of (name, mode, n, max_edges, fail_kinds, dangling).  Returns graphs (dicts with orders / probes) + stats."""
+    """families: list of (name, mode, n, max_edges, fail_kinds, dangling[, max_br]).  Returns graphs (dicts with orders / probes) + stats."""
     def one(f):
-        name, mode, n, me, fk, dang = f
-        return vlib.tlc("TMGen", "gen_%s.cfg" % name, files={"gen_%s.cfg" % name: gen_cfg(mode, n, me, fk, dang)}, workers=2, timeout=900,
-                        heap="4g")
+        name, mode, n, me, fk, dang = f[:6]
+        return vlib.tlc("TMGen", "gen_%s.cfg" % name, files={"gen_%s.cfg" % name: gen_cfg(mode, n, me, fk, dang, f[6] if len(f) > 6 else 0)},
+                        workers=2, timeout=1200, heap="4g")
     with concurrent.futures.ThreadPoolExecutor(max_workers=JVMS) as ex:
         runs = list(ex.map(one, families))
     graphs, stats = [], []
@@ -162,7 +195,7 @@ def gen_graphs(families):
             g["probes"] = sorted(g["probes"])
             graphs.append(g)
             k += 1
-        stats.append({"family": f[0], "mode": f[1], "nodes": f[2], "max_edges": f[3], "fail_kinds": list(f[4]), "dangling": f[5], "graphs": k,
+        stats.append({"family": f[0], "mode": f[1], "nodes": f[2], "max_edges": f[3], "fail_kinds": list(f[4]), "dangling": f[5], "max_branches": f[6] if len(f) > 6 else 0, "graphs": k,
                       "orders": sum(len(g["orders"]) for g in graphs if g["fam"] == f[0]),
                       "probes": sum(len(g["probes"]) for g in graphs if g["fam"] == f[0]), "tlc_distinct": r.distinct})
         log("  family %s: %d graphs, %d completion orders, %d probes (TLC %d distinct states, %.0fs)" % (
@@ -173,7 +206,9 @@ def gen_graphs(families):
 def order_cases(graphs):
     cases = []
     for gi, g in enumerate(graphs):
-        base = {"grp": "g%d" % gi, "mode": g["mode"], "nodes": g["nodes"], "edges": g["edges"], "fail": g["fail"], "hook": False}
+        base = {"grp": "g%d" % gi, "mode": g["mode"], "nodes": g["nodes"], "edges": g["edges"], "branches": g.get("branches", []),
+                "fail": g["fail"], "hook": False,
+                "call": "stream" if gi % 3 == 2 else "invoke"}           # every third graph is run through Stream()
         k = 0
         for o in g["orders"]:
             k += 1
@@ -240,7 +275,7 @@ def sched_cases(tier, scheds, rnd):
         mode = "wf" if x["eager"] else ("dag", "pregel")[i % 2]
         stages = 2 if (not x["eager"] and i % 3 == 0) else 1           # batch: the same order is replayed on the second step too
         cases.append(dict(lane_graph(mode, x["k"], stages), id="s%d" % i, grp="", order=[], hook=True, gate="sched", jit=0,
-                          sched=x["sched"], seed=vlib.SEED * 100003 + i))
+                          sched=x["sched"], seed=vlib.SEED * 100003 + i, call="stream" if i % 5 == 4 else "invoke"))
     return cases
 
 
@@ -280,10 +315,12 @@ def hook_cases(tier, graphs, rnd):
     pool = [g for g in graphs]
     rnd.shuffle(pool)
     for g in pool[:120 * reps]:
-        shapes.append(({"mode": g["mode"], "nodes": g["nodes"], "edges": g["edges"], "fail": g["fail"]}, rnd.choice(GATES), rnd.choice((0, 30, 150))))
+        shapes.append(({"mode": g["mode"], "nodes": g["nodes"], "edges": g["edges"], "branches": g.get("branches", []), "fail": g["fail"]},
+                       rnd.choice(GATES), rnd.choice((0, 30, 150))))
     cases = []
     for i, (g, gate, jit) in enumerate(shapes):
-        cases.append(dict(g, id="h%d" % i, grp="", order=[], hook=True, gate=gate, jit=jit, seed=vlib.SEED * 100003 + i))
+        cases.append(dict(g, id="h%d" % i, grp="", order=[], hook=True, gate=gate, jit=jit, seed=vlib.SEED * 100003 + i,
+                          call="stream" if i % 4 == 3 else "invoke"))
     return cases
 
 
@@ -374,14 +411,20 @@ def hook_reason(ln, inv):
     return "reject-at-" + e["ev"]
 
 
-def validate_hook(lines, *, nproc=JVMS, timeout=900, max_bad=3):
+def validate_hook(lines, *, nproc=JVMS, timeout=900, max_bad=3, group=None):
     """Returns dict(states, transitions, bad=[(case id, reason, detail)], accepted=n).  A chunk whose high-water mark stops inside
     a case rejects that case; validation continues behind it (bounded by max_bad)."""
     cases = split_hook(lines)
     if not cases:
         return {"states": 0, "transitions": 0, "bad": [], "accepted": 0, "unvalidated": 0}
-    per = max(1, (len(cases) + nproc - 1) // nproc)
-    chunks = [cases[i:i + per] for i in range(0, len(cases), per)]
+    if group:                      # one chunk per group of cases (re-runs: the repetitions of one original case)
+        by = {}
+        for c in cases:
+            by.setdefault(group(c[0]), []).append(c)
+        chunks = list(by.values())
+    else:
+        per = max(1, (len(cases) + nproc - 1) // nproc)
+        chunks = [cases[i:i + per] for i in range(0, len(cases), per)]
 
     def one(chunk):
         states = trans = accepted = 0
@@ -517,6 +560,10 @@ def c03(tier, repo=None):
     rnd = random.Random(vlib.SEED * 7919 + 3)
     log("[C03] tier=%s seed=%d repo=%s" % (tier, vlib.SEED, repo or vlib.REPO))
     # (a) models
+    apa_future = None
+    if tier == "thorough":
+        apa_pool = concurrent.futures.ThreadPoolExecutor(max_workers=1)
+        apa_future = apa_pool.submit(apalache_attempt, 6, 900)
     st_a, tr_a, model_runs = run_models(tier)
     st_c, tr_c, conf_model_runs = run_conf_model(tier)
     # generation
@@ -570,7 +617,7 @@ def c03(tier, repo=None):
         again += [c for c in ocases if c["grp"] in grps]
         h2, c2, _ = replay(again, repo=repo, timeout=900)
         hbad2 = {}
-        for cid, reason, detail in validate_hook(h2, max_bad=40)["bad"]:
+        for cid, reason, detail in validate_hook(h2, max_bad=2, group=lambda cid: cid.split("~")[0])["bad"]:
             hbad2.setdefault(cid.split("~")[0], set()).add(sig_of(reason))
         cbad2 = {(b[0], sig_of(b[2])) for b in validate_conf(c2)["bad"]} if c2 else set()
         for cid, sig, detail in hook_bad:
@@ -601,6 +648,12 @@ def c03(tier, repo=None):
         raise Inconclusive("not every case was run / validated although nothing was rejected: %s, unvalidated=%d" % (rstats, hres["unvalidated"]))
 
     st = selftest(hook_lines, conf_lines) if code == 0 else {}
+    apalache = {"status": "not attempted in the quick tier (measured: inductive for 8 tasks in 5m39s, see notes/tm.md)"}
+    if apa_future is not None:
+        apalache = apa_future.result()
+        log("  Apalache inductive invariant (TaskManagerInd, %s tasks): %s" % (apalache.get("tasks"), apalache))
+        if "Error" in [apalache.get(k) for k in ("base", "implies_safety", "step")]:
+            raise Inconclusive("Apalache found a counterexample to induction for IndInv on the protocol model: %s" % apalache)
 
     # coverage measures
     hook_sigs, max_l = set(), 0
@@ -634,7 +687,7 @@ def c03(tier, repo=None):
            "samples": [{"hook_case": cid, "events": [json.loads(x) for x in ls[:14]]} for cid, ls in some_h] +
                       [{"order_case": c, "observations": [json.loads(x) for x in o[1:10]]} for c, o in some_c],
            "exhaustive": exhaustive and tier == "thorough",
-           "model_runs": model_runs, "conf_model_runs": conf_model_runs, "families": gen_stats,
+           "apalache_inductive_invariant": apalache, "model_runs": model_runs, "conf_model_runs": conf_model_runs, "families": gen_stats,
            "schedule_families": sched_stats, "schedule_replays": sched_runs, "schedule_replays_not_followed": sched_drift,
            "hook_runs": rstats["hook_ran"], "hook_events": len(hook_lines), "hook_runs_accepted": hres["accepted"],
            "hook_nontrivial_distinct": len(hook_sigs), "max_overflow_list_len": max_l, "tmtrace_states": hres["states"],
@@ -657,7 +710,7 @@ def replay_c03(path):
     if rep["case"]["layer"] == "hook-trace":
         again = [dict(case, id="%s~%d" % (case["id"], k), seed=case.get("seed", 0) + 7 * k) for k in range(25)]
         h2, _, _ = replay(again)
-        bad = [b for b in validate_hook(h2, max_bad=40)["bad"] if sig_of(b[1]) == rep["sig"]]
+        bad = [b for b in validate_hook(h2, max_bad=3)["bad"] if sig_of(b[1]) == rep["sig"]]
     else:
         fams = {"dag": ("dag", False), "pregel": ("pregel", False), "wf": ("wf", True)}
         n = len(case["nodes"])
